@@ -111,7 +111,7 @@ def gen_params(draw, max_hosts=12, max_services=5, small=True):
     ne = p.get("num_exploits", S)
     npe = p.get("num_privescs", P)
     p["restrictiveness"] = draw(st.sampled_from([1, 1, 2, 2, 3, 4, 5, 6]))
-    uniform = draw(st.booleans()) and S <= 8
+    uniform = draw(st.booleans()) and S <= 8 and P <= 8
     p["uniform"] = uniform
     if not uniform:
         vals = [0.01, 0.5, 1.0, 2.0, 5.0, 50.0]
